@@ -679,16 +679,19 @@ def run(ctx):
     ]
     ctx.proof(props=["Molli.Props.C11"])
     q = ctx.quick()
+    if not q:
+        G.leanchecker(ctx, ["Molli.Props.C11", "Molli.Lemmas.GeomField", "Molli.Lemmas.Geom", "Molli.Lemmas.GeomCert"])
     B = Batch()
     sec_corpus(ctx, B)
-    sec_rotvec(ctx, B, 150 if q else 3000)
-    sec_rotvec_degenerate(ctx, B, 6 if q else 60)
-    sec_rotaxis(ctx, B, 80 if q else 1500)
+    sec_rotvec(ctx, B, 400 if q else 20000)
+    sec_rotvec_degenerate(ctx, B, 12 if q else 250)
+    sec_rotaxis(ctx, B, 200 if q else 8000)
     B.run(ctx)
-    sec_molecules(ctx, B, 14 if q else 250)
-    B.run(ctx)
-    sec_ensembles(ctx, B, 10 if q else 200)
-    B.run(ctx)
+    for _ in range(1 if q else 15):
+        sec_molecules(ctx, B, 40 if q else 100)
+        B.run(ctx)
+        sec_ensembles(ctx, B, 30 if q else 80)
+        B.run(ctx)
 
 
 def replay(ctx, path):
